@@ -1,6 +1,5 @@
 package vsim
 
-
 import (
 	"context"
 	"errors"
@@ -180,7 +179,27 @@ func (f *fakeRouter) serve() {
 		case *wamp.Cancel:
 			// the call's normal reply may already be on its way; answer the cancel as well (late or not)
 			mode, _ := wamp.AsString(x.Options["mode"])
-			if mode != "kill" || f.g.Bool() {
+			if f.hostile && f.g.Chance(1, 3) {
+				// no answer to the CANCEL: progressive results for the
+				// cancelled call keep arriving, closer together than the
+				// response timeout, for far longer than any bound on "returns"
+				f.c.Fault("router_streams_after_cancel")
+				req := x.Request
+				gap := f.rto / time.Duration(f.g.Range(2, 5))
+				simrt.Go("op:stream", func() {
+					for i := 0; i < 400; i++ {
+						time.Sleep(gap)
+						if f.stopped {
+							return
+						}
+						select {
+						case f.peer.Send() <- &wamp.Result{Request: req, Details: wamp.Dict{"progress": true}, Arguments: wamp.List{"stream", i}}:
+						case <-f.done:
+							return
+						}
+					}
+				})
+			} else if mode != "kill" || f.g.Bool() {
 				f.send(&wamp.Error{Type: wamp.CALL, Request: x.Request, Details: wamp.Dict{}, Error: wamp.ErrCanceled}, time.Duration(f.g.Intn(3))*f.rto/2)
 			}
 		case *wamp.Yield:
@@ -395,7 +414,8 @@ func runClient(c *Ctx, hostile bool) {
 					r.req = tag
 					ctx, cancel := context.WithTimeout(context.Background(), 20*time.Second)
 					r.bound = 20*time.Second + slack
-					if o.kind == 6 {
+					if o.kind == 6 || (o.kind == 7 && o.n%2 == 1) {
+						// (every other progressive call also runs under a short deadline)
 						cancel()
 						ctx, cancel = context.WithTimeout(context.Background(), o.d)
 						r.bound = o.d + slack
@@ -404,9 +424,13 @@ func runClient(c *Ctx, hostile bool) {
 					returned := false
 					lastP := -1
 					if o.kind == 7 {
+						slow := time.Duration(o.n%3) * 7 * time.Millisecond // some handlers lag behind the stream
 						prog = func(res *wamp.Result) {
 							if returned {
 								progAfterReturn = tag
+							}
+							if slow > 0 {
+								time.Sleep(slow)
 							}
 							if len(res.Arguments) >= 2 {
 								n, _ := wamp.AsInt64(res.Arguments[1])
